@@ -33,6 +33,9 @@ func registerVF(e *Engine) {
 			m := fr.m
 			name := m.concreteString(args[0], "symbol name")
 			bits := int(asInt64(args[1]))
+			if bits <= 0 {
+				return concreteOfKind(k, 0)
+			}
 			v := m.newVar(name, bits, false)
 			return &sym{t: m.pool.Zext(v, kindWidth(k)), k: k}
 		}
@@ -42,6 +45,22 @@ func registerVF(e *Engine) {
 	vf["vf_Int32N"] = mkNarrow(types.Int32)
 	vf["vf_IntN"] = mkNarrow(types.Int)
 	vf["vf_Uint32N"] = mkNarrow(types.Uint32)
+	// vf_Uint32Split(name, n): a 32-bit value whose top n bits are the variable name.hi and whose low
+	// 32-n bits are name.lo (a CIDR base address with a concrete prefix length)
+	vf["vf_Uint32Split"] = func(fr *frame, args []value) value {
+		m := fr.m
+		name := m.concreteString(args[0], "symbol name")
+		n := int(asInt64(args[1]))
+		switch {
+		case n <= 0:
+			return &sym{t: m.newVar(name+".lo", 32, false), k: types.Uint32}
+		case n >= 32:
+			return &sym{t: m.newVar(name+".hi", 32, false), k: types.Uint32}
+		}
+		hi := m.newVar(name+".hi", n, false)
+		lo := m.newVar(name+".lo", 32-n, false)
+		return &sym{t: m.pool.Concat(hi, lo), k: types.Uint32}
+	}
 	vf["vf_Choose"] = func(fr *frame, args []value) value {
 		m := fr.m
 		name := m.concreteString(args[0], "choice name")
@@ -75,6 +94,12 @@ func registerVF(e *Engine) {
 	vf["vf_CidrStr"] = func(fr *frame, args []value) value {
 		m := fr.m
 		a := m.term(args[0])
+		if n, ok := args[1].(int); ok {
+			if at, ok := args[0].(uint32); ok {
+				return fmt.Sprintf("%d.%d.%d.%d/%d", byte(at>>24), byte(at>>16), byte(at>>8), byte(at), n)
+			}
+			return &symStr{segs: []seg{{k: segIP4, t: a}, {k: segLit, lit: fmt.Sprintf("/%d", n)}}}
+		}
 		n := m.term(args[1])
 		return &symStr{segs: []seg{{k: segIP4, t: a}, {k: segLit, lit: "/"}, {k: segDec, t: n, signed: true}}}
 	}
@@ -149,6 +174,17 @@ func registerVF(e *Engine) {
 			}
 			// same backing array?  compare the address of the last element of the full-capacity views
 			return &a[:cap(a)][cap(a)-1] == &bb[:cap(bb)][cap(bb)-1]
+		}
+		return false
+	}
+	vf["vf_SameString"] = func(fr *frame, args []value) value {
+		switch a := args[0].(type) {
+		case string:
+			b, ok := args[1].(string)
+			return ok && a == b
+		case *symStr:
+			b, ok := args[1].(*symStr)
+			return ok && a == b
 		}
 		return false
 	}
